@@ -280,6 +280,15 @@ def diff(a, b, path='', out=None, limit=8):
     elif isinstance(a, list):
         if len(a) != len(b):
             out.append('%s: length %d != %d (%s | %s)' % (path, len(a), len(b), _short(a), _short(b)))
+        elif path.endswith('.matrix') and not EXACT[0] and a and all(isinstance(v, (int, float)) for v in a + b):
+            # a derived node matrix: a float32 product of float32-rounded parameters; an entry may be the small difference of large
+            # terms, so the rounding is judged against the size of the matrix, not of the entry
+            finite = [abs(v) for v in a + b if v == v and abs(v) != float('inf')]
+            scale = max(finite) if finite else 0.0
+            for i, (x, y) in enumerate(zip(a, b)):
+                same = x == y or (x != x and y != y) or abs(x - y) <= 4e-6 * (1.0 + scale) or abs(x - y) <= 2e-5 * (1.0 + abs(x) + abs(y))
+                if not same and len(out) < limit:
+                    out.append('%s[%d]: %r != %r' % (path, i, _short(x), _short(y)))
         else:
             for i, (x, y) in enumerate(zip(a, b)):
                 diff(x, y, '%s[%d]' % (path, i), out, limit)
